@@ -29,6 +29,7 @@ type Obligation struct {
 	Decided string // discharged | failed | undecided
 	KF      *KnownFinding
 	Spec    ast.Expr // spec expression for replay rendering (ensures clauses)
+	scope   *SpecScope
 }
 
 type State struct {
@@ -106,6 +107,7 @@ type KnownFinding struct {
 	Guard      string                 `json:"guard"`
 	What       string                 `json:"what"`
 	Witness    map[string]interface{} `json:"witness,omitempty"`
+	Instead    string                 `json:"instead,omitempty"`
 	guardTerm  string
 }
 
